@@ -562,10 +562,14 @@ def run(ctx: Ctx):
     from harness.translators import timespan as ttr
     ctx.regen("timespan", ttr.translate)
     ctx.regen("predicate", ptr.translate)
-    props_ok = ctx.build_props(extra_targets=["Model/ParserCheck.vo", "Model/ParserConvCheck.vo", "Model/ParserShow.vo"])
+    # wave 6: the `match` arms of _ConversionVisitor regenerated from queries/_expression_strings.py (Gen/ConvGen.v);
+    # Proofs/ConvProofs.v proves them equal to of_tree + C05's conv, Model/ConvCheck.v compares them with the real visitor
+    from harness.translators import conv_visitor as cvtr
+    ctx.regen("conv_visitor", cvtr.translate)
+    props_ok = ctx.build_props(extra_targets=["Model/ParserCheck.vo", "Model/ParserConvCheck.vo", "Model/ParserShow.vo", "Model/ConvCheck.vo"])
     if not props_ok:
         from harness.common import coq_make
-        coq_make(["Model/ParserCheck.vo", "Model/ParserConvCheck.vo", "Model/ParserShow.vo", "Proofs/ParserProofs.vo"])
+        coq_make(["Model/ParserCheck.vo", "Model/ParserConvCheck.vo", "Model/ParserShow.vo", "Model/ConvCheck.vo", "Proofs/ParserProofs.vo"])
 
     g = Gen(r)
     sizes = (320, 250, 600) if quick else (3000, 3000, 6000)
@@ -842,7 +846,8 @@ CONV_EDGE = [
     "+T'2020-01-01' = visit.timespan.begin", "-visit.timespan.begin = :t0", "NOT detector", "NOT null", "NOT (detector = 1)", "NOT NOT detector = 1", "NOT :d",
     "detector IN (1)", "detector IN (1.5)", "detector IN ('a')", "detector IN (:ids)", "detector IN (:names)", "detector IN (:fs)", "detector IN (:mixed)", "detector IN (:d, :b)",
     "detector IN (:s)", "detector IN (:t0)", "detector IN (:nobody)", "detector IN (null)", "detector IN (visit)", "detector IN (instrument)", "detector IN (1..5)", "detector IN (5..1)",
-    "detector IN (5..4)", "detector IN (5..3)", "detector IN (1..5:2)", "instrument IN (1..5)", "instrument IN ('a', :names, band)", "instrument IN (:ids)", "visit.exposure_time IN (1..5)",
+    "detector IN (5..4)", "detector IN (5..3)", "detector IN (1..5:2)", "detector IN (0..1:2)", "detector IN (1..10:4)", "detector NOT IN (3..8:3, 5)",
+    "detector IN (2..9:5, 20..21:7) OR visit = 1", "NOT (detector IN (1..6:2))", "detector IN (7..7:3)", "detector + 1 IN (10..19:10)", "instrument IN (1..5)", "instrument IN ('a', :names, band)", "instrument IN (:ids)", "visit.exposure_time IN (1..5)",
     "visit.exposure_time IN (1.5, :fs, :f)", "visit.exposure_time IN (1)", "visit.timespan.begin IN (:t0)", "visit.timespan.begin IN (T'2020-01-01')", "visit.timespan IN (:t0)",
     "visit.timespan.begin IN (visit.timespan.end)", "null IN (1)", "(detector = 1) IN (1)", "detector + 1 IN (1, 2)", "detector / 2 IN (1..2)", "-detector IN (-1, +2)", "detector IN (-1..+2)",
     "detector NOT IN (1, :ids)", "1 IN (detector)", "'a' IN (instrument)", ":d IN (1)", ":ids IN (1)", ":ids = 1", "detector = :ids", "detector = :D", "detector = :T0", "visit.timespan.begin < :t0",
@@ -910,6 +915,14 @@ def crid(r) -> str:
     return "(Some ROther)"
 
 
+def _range_members(start, stop, step):
+    """canonical description of the integers of range(start, stop, step) (stop exclusive; None = unbounded)"""
+    if stop is None:
+        return (start, None, step)
+    n = len(range(start, stop, step)) if step >= 1 else 0
+    return ("empty",) if n == 0 else (start, 1, 0) if n == 1 else (start, n, step)
+
+
 def _conv_stage(ctx: Ctx, r, cases, hdr: str, first: bool):
     """every string of the run (plus CONV_EDGE) through the real convert_expression_string_to_predicate and through the
     model's where_verdict (lexer, parser, of_tree, C05's conv)"""
@@ -964,6 +977,16 @@ def _conv_stage(ctx: Ctx, r, cases, hdr: str, first: bool):
             for n, rr in rec["res"].items():
                 if rr is not None and rr[0] == "exc":
                     ctx.oracle_fail(f"resolve-exc:{rr[1]}", {"where": s, "name": n, "dimensions": ctxs[d]}, f"visitIdentifier({n!r}) raised {rr[1]} instead of InvalidQueryError")
+            # ---- O4 (range literal values) on the conversion's OUTPUT: `a..b:s` is documented as the sequence of integers
+            # a, a+s, ... <= b; the in_range leaves of the Predicate (exclusive stop) must denote exactly those sequences
+            if rec.get("ranges"):
+                want = {_range_members(a, b + 1, 1 if st is None else st) for a, b, st in rec["ranges"]["tree"]}
+                got = {_range_members(a, b, st) for a, b, st in rec["ranges"]["pred"]}
+                if want != got:
+                    ctx.oracle_fail("range-literal-value:conversion", {"where": s, "api": "convert_expression_string_to_predicate", "dimensions": ctxs[d],
+                                                                        "tree_ranges": rec["ranges"]["tree"], "in_range_leaves": rec["ranges"]["pred"]},
+                                    "a range literal a..b:s was converted to an in_range test that does not denote the documented sequence a, a+s, ... <= b")
+                ctx.hist("conv_ranges", "strided-unaligned" if any(st not in (None, 1) and (b - a) % st for a, b, st in rec["ranges"]["tree"]) else "other")
             if rec["obs"] == "accept" and c.get("must_reject"):
                 ctx.oracle_fail(f"accepted-invalid:{c.get('family')}", {"where": s, "api": "convert_expression_string_to_predicate", "family": c.get("family"), "must_reject": True},
                                 "an invalid where string was converted to a Predicate (given some other meaning)")
@@ -975,12 +998,20 @@ def _conv_stage(ctx: Ctx, r, cases, hdr: str, first: bool):
                 meta.append({"s": s, "dimensions": ctxs[d], "kind": c["kind"], "family": c.get("family"), "real": rec["obs"], "res": rec["res"]})
             except ValueError as e:
                 ctx.disagreement("encode", {"s": s}, f"observation not expressible in the model: {e}")
-    hdr_v = (hdr.replace("Model.ParserCheck.", "Model.ParserCheck Model.Expr Model.SqlExpr Model.ParserConv Model.ParserConvCheck.")
+    # the regenerated visitor (Model/ConvCheck.vo) may fail to build when the source changed shape (e.g. a visitor method
+    # that no longer takes the bind map): the hand model's correspondence must still run
+    from harness.common import COQ
+    vo, gen = COQ / "Model" / "ConvCheck.vo", COQ / "Gen" / "ConvGen.v"
+    have_gen = vo.exists() and gen.exists() and vo.stat().st_mtime >= gen.stat().st_mtime
+    if not have_gen and first:
+        ctx.tie_broken("correspondence", "conv_gen", "Model/ConvCheck.vo (regenerated _ConversionVisitor methods) is not built; only the hand model is compared")
+    hdr_v = (hdr.replace("Model.ParserCheck.", "Model.ParserCheck Model.Expr Model.SqlExpr Model.ParserConv Model.ParserConvCheck" + (" Model.ConvCheck." if have_gen else "."))
              + "Definition mkv (c : list N) (t : list (string * option string)) (n : list (string * Z)) (r : list (string * option rid)) "
                "(b : list string) (o : cobs) : conv_case := (c, t, n, r, b, o).\n")
-    bad = ctx.coq_cases("conv", hdr_v, conv_cases, "chk_conv", shard=700)
+    # chk_conv_gen = chk_conv (hand model) && the REGENERATED visitor over the hand-written constructors agrees as well
+    bad = ctx.coq_cases("conv", hdr_v, conv_cases, "chk_conv_gen" if have_gen else "chk_conv", shard=700)
     for i in (bad or [])[:6]:
-        ctx.disagreement("conv", meta[i], "model verdict (lexer, parser, of_tree, conv) differs from convert_expression_string_to_predicate")
+        ctx.disagreement("conv", meta[i], "model verdict (lexer, parser, of_tree, conv; regenerated visitor methods) differs from convert_expression_string_to_predicate")
     # evidence (non-vacuity): on a fixed-size sample, what the model says (Accept / Reject / NoClaim)
     step = max(1, -(-len(conv_cases) // 300))
     sample = list(range(0, len(conv_cases), step))
